@@ -2,10 +2,10 @@ package checks
 
 import (
 	"bytes"
-	"errors"
 	"context"
 	"crypto/sha512"
 	"encoding/hex"
+	"errors"
 	"fmt"
 	"os"
 	"path/filepath"
